@@ -31,6 +31,9 @@ type Violation struct {
 	Trace     []string `json:"trace,omitempty"`
 	Visible   string   `json:"visible"`
 	Race      bool     `json:"race,omitempty"`
+	// Space: a finding about the whole exploration of the scenario (something that some schedule must show
+	// and none did), not about one execution; replayed by exploring the scenario again
+	Space bool `json:"space,omitempty"`
 }
 
 // Result of one task.
@@ -127,7 +130,12 @@ func runTask(t *Task) *Result {
 			return false
 		}
 	}
+	eager := EagerPairs(sc)
+	eagerSeen := map[string]bool{}
 	st, terr := vs.Explore(opt, body, func(ex *vs.Exec) bool {
+		for _, k := range EagerWitnessed(cur, eager) {
+			eagerSeen[k] = true
+		}
 		vis := Visible(cur, ex)
 		h := fnv.New64a()
 		h.Write([]byte(vis))
@@ -155,6 +163,17 @@ func runTask(t *Task) *Result {
 	})
 	res.Stats = st
 	res.ToolErr = terr
+	if terr == "" && st.Exhaustive && sc.PreemptBound == 0 && len(res.Violations) == 0 {
+		for _, k := range eager {
+			if !eagerSeen[k] {
+				var i, p int
+				fmt.Sscanf(k, "%d/%d", &i, &p)
+				res.Violations = append(res.Violations, Violation{Prop: "C11", Space: true, Visible: "(whole exploration)",
+					Msg: fmt.Sprintf("in none of the %d schedules explored (all interleavings, %d workers) does the predicate of task %d start before task %d has returned, although task %d only provides an input of the task, not of the predicate: the predicate is not evaluated as soon as its own inputs are available", st.Complete, effLimit(sc), i, p, p)})
+				break
+			}
+		}
+	}
 	res.Visibles = len(visibles)
 	for o := range outcomes {
 		res.Outcomes = append(res.Outcomes, o)
@@ -163,9 +182,10 @@ func runTask(t *Task) *Result {
 	// confirm violations: five replays with identical observations
 	for vi := range res.Violations {
 		v := &res.Violations[vi]
-		if v.Race {
+		if v.Race || v.Space {
 			// the detector reports a pair of stacks once per process: race
-			// findings are confirmed by the orchestrator in a fresh process
+			// findings are confirmed by the orchestrator in a fresh process;
+			// a finding about the whole exploration has no schedule of its own
 			continue
 		}
 		for i := 0; i < 5; i++ {
